@@ -178,6 +178,111 @@ func probeResolveLocal(fn *ast.FuncDecl, e ast.Expr) ast.Expr {
 	return e
 }
 
+// probeRecvMutations inspects a method body for shared mutable state of its receiver, which all
+// workers of scan.GenericEngine share: (writes) assignments / inc-dec whose target is rooted at the
+// receiver (recv.f = ..., recv.f.g++, recv.f[i] = ...), (addrs) address-of expressions rooted at the
+// receiver (&recv.f) -- handing out a pointer into the shared object.
+func probeRecvMutations(fd *ast.FuncDecl) (writes, addrs []string) {
+	recv := probeRecvName(fd)
+	if recv == "" {
+		return nil, nil
+	}
+	var root func(e ast.Expr) (string, bool) // root identifier, and whether e goes through a field of it
+	root = func(e ast.Expr) (string, bool) {
+		switch x := e.(type) {
+		case *ast.Ident:
+			return x.Name, false
+		case *ast.SelectorExpr:
+			r, _ := root(x.X)
+			return r, true
+		case *ast.IndexExpr:
+			return root(x.X)
+		case *ast.StarExpr:
+			return root(x.X)
+		case *ast.ParenExpr:
+			return root(x.X)
+		}
+		return "", false
+	}
+	ast.Inspect(fd.Body, func(n ast.Node) bool {
+		switch x := n.(type) {
+		case *ast.AssignStmt:
+			for _, l := range x.Lhs {
+				if r, viaField := root(l); r == recv && viaField {
+					writes = append(writes, probeExprString(l))
+				}
+			}
+		case *ast.IncDecStmt:
+			if r, viaField := root(x.X); r == recv && viaField {
+				writes = append(writes, probeExprString(x.X))
+			}
+		case *ast.UnaryExpr:
+			if x.Op == token.AND {
+				if r, viaField := root(x.X); r == recv && viaField {
+					addrs = append(addrs, probeExprString(x))
+				}
+			}
+		}
+		return true
+	})
+	return
+}
+
+// probeFreshLocal: is the variable v of fn bound exactly once, to a freshly allocated value of type
+// typ (&typ{...}, new(typ), or `var v typ` / v := typ{...})?
+func probeFreshLocal(fn *ast.FuncDecl, v, typ string) bool {
+	isFresh := func(e ast.Expr) bool {
+		switch x := e.(type) {
+		case *ast.UnaryExpr:
+			if cl, ok := x.X.(*ast.CompositeLit); ok && x.Op == token.AND && cl.Type != nil {
+				return probeExprString(cl.Type) == typ
+			}
+		case *ast.CompositeLit:
+			return x.Type != nil && probeExprString(x.Type) == typ
+		case *ast.CallExpr:
+			if id, ok := x.Fun.(*ast.Ident); ok && id.Name == "new" && len(x.Args) == 1 {
+				return probeExprString(x.Args[0]) == typ
+			}
+		}
+		return false
+	}
+	bindings, fresh := 0, 0
+	ast.Inspect(fn.Body, func(n ast.Node) bool {
+		switch x := n.(type) {
+		case *ast.AssignStmt:
+			if len(x.Lhs) == len(x.Rhs) {
+				for i, l := range x.Lhs {
+					if id, ok := l.(*ast.Ident); ok && id.Name == v {
+						bindings++
+						if isFresh(x.Rhs[i]) {
+							fresh++
+						}
+					}
+				}
+			} else {
+				for _, l := range x.Lhs {
+					if id, ok := l.(*ast.Ident); ok && id.Name == v {
+						bindings++
+					}
+				}
+			}
+		case *ast.ValueSpec:
+			for i, id := range x.Names {
+				if id.Name == v {
+					bindings++
+					if len(x.Values) == 0 && x.Type != nil && probeExprString(x.Type) == typ {
+						fresh++
+					} else if i < len(x.Values) && isFresh(x.Values[i]) {
+						fresh++
+					}
+				}
+			}
+		}
+		return true
+	})
+	return bindings == 1 && fresh == 1
+}
+
 // probeFindLit returns the composite literals of the named type inside n.
 func probeFindLit(n ast.Node, typ string) []*ast.CompositeLit {
 	var out []*ast.CompositeLit
@@ -434,6 +539,13 @@ func genSocksConsts() {
 		die("%s: Scan does not call ReadFrom exactly once", p.pos(scan))
 	}
 	replyVar := probeExprString(rfc[0].Fun.(*ast.SelectorExpr).X)
+	// GenericEngine shares one Scanner between all workers: the reply must be decoded into a value that
+	// belongs to this call alone, and Scan must not write to (or hand out pointers into) the Scanner
+	fmt.Fprintf(&b, "Definition socks_reply_fresh_local : bool := %s.\n",
+		coqBool(probeFreshLocal(scan, strings.TrimPrefix(strings.Trim(replyVar, "()"), "&"), "MethodReply")))
+	sw, sa := probeRecvMutations(scan)
+	fmt.Fprintf(&b, "Definition socks_scan_writes_scanner : list string := %s%%string.\n", coqStringList(sw))
+	fmt.Fprintf(&b, "Definition socks_scan_scanner_field_addrs : list string := %s%%string.\n", coqStringList(sa))
 	accept := map[string]string{}
 	for _, c := range socksConjuncts(cond) {
 		be, ok := c.(*ast.BinaryExpr)
